@@ -13,7 +13,7 @@ from . import normal
 _SPEC = re.compile(r'%(?:(%)|([sdr]))')
 
 
-def flatten(expr):
+def flatten(expr, cond=None):
     '''expr -> [('lit', text) | ('hole', ast, conversion)] ; adjacent literals merged'''
     out = []
 
@@ -26,6 +26,15 @@ def flatten(expr):
             out.append(('lit', t))
 
     def rec(e, conv='s'):
+        if isinstance(e, ast.IfExp) and cond is not None:
+            # a conditional piece: the rule's abstract state says which arm is written
+            try:
+                which = cond(e.test)
+            except AnalysisError:
+                which = None
+            if which is not None:
+                rec(e.body if which else e.orelse, conv)
+                return
         if isinstance(e, ast.Constant) and isinstance(e.value, str):
             lit(e.value)
             return
